@@ -348,3 +348,6 @@ def run(ctx):
                     ctx.check(any(g.edge_dominates(sb, tg, b) for sb, tg in se), "BALANCE", "C05:BALANCE:%s" % nm, "%s succeeds only on %s" % (nm, variant), "%s can succeed on another event kind (a scalar would be taken for a container)" % nm, config, ctx.where(g, b))
         # ---- 9. single-document entries reject leftovers (shared with C11)
         C11.rule_single(ctx, fx, config)
+        # ---- 10. option / null handling: which scalars fill an Option position with None is a style-and-text table (shared with C06)
+        from . import C06
+        C06.rule_style(ctx, fx, config)
